@@ -56,7 +56,9 @@ var c16Events = []string{"sm-save-enter", "sm-save-exit", "sm-recover-enter", "s
 	"sys-snapshot-compacted", "sys-log-compacted",
 	// state dependent instant: a snapshot record has just become durable at an index
 	// above the commit index of the durable raft state
-	"snapshot-record-ahead-of-durable-commit"}
+	"snapshot-record-ahead-of-durable-commit",
+	// on-disk state machines: the Sync that makes a just recovered image durable
+	"sm-sync-after-recover-enter", "sm-sync-after-recover-exit"}
 
 type sysListener struct {
 	host string
@@ -189,9 +191,17 @@ func TestVF_C16_Cluster(t *testing.T) {
 			// snapshot record saved by the step worker, flag file removal, recover
 			p.Event = []int{2, 3, 5, 5, 6, 8, 9, 9}[vfhelp.Pick(t, "recvevent", 3)]
 			p.LagVictim = true
+			if p.Kind == KindOnDisk && vfhelp.Pick(t, "syncafterrecover", 1) == 1 {
+				// on-disk state machines: the window between RecoverFromSnapshot and the Sync that
+				// makes the recovered image durable (the received snapshot is shrunk afterwards)
+				p.Event = 13 + vfhelp.Pick(t, "syncexit", 1)
+			}
 		}
 		ev := c16Events[p.Event]
 		if strings.Contains(ev, "recover") || strings.Contains(ev, "received") || ev == "chunk" {
+			if strings.HasPrefix(ev, "sm-sync-after-recover") {
+				p.Kind = KindOnDisk
+			}
 			p.LagVictim = true // these events only happen on a replica that receives a snapshot
 			if ev != "chunk" || p.Pad < 70000 {
 				p.K = 1 // and only once
@@ -530,7 +540,7 @@ func runC16(t *rapid.T, st *vfhelp.Stats, p c16Plan) ([]string, bool, interface{
 	case <-time.After(40 * time.Second):
 	}
 	if fired {
-		labels = append(labels, "trigger-fired")
+		labels = append(labels, "trigger-fired", "fired-"+ev)
 		crashAndInspect()
 	}
 	select {
